@@ -45,7 +45,8 @@ SetOf(seq) == {seq[i] : i \in 1..Len(seq)}
 
 VARIABLES clock,
           msgs,     \* Seq of datagram contents; a datagram's identity is its position
-          pend,     \* pend[n]  : function  addr -> [ready, idx, tries, hs1, queued, due, blocked]
+          pend,     \* pend[n]  : function  addr -> [ready, idx, tries, hs1, queue, due, blocked]
+                    \* queue: Seq(BOOLEAN), one flag per queued inside packet: will the outbound firewall allow it?
           tuns,     \* tuns[n]  : function  lidx -> tunnel record
           hosts,    \* hosts[n] : function  addr -> Seq(lidx), primary first
           out,      \* observation: what the last step emitted, a sequence of [id, to]
@@ -136,25 +137,27 @@ DueCount(tm) == Cardinality({j \in 1..Len(tm) : tm[j] <= clock})
 TimersOf(n, a) == IF a \in DOMAIN timers[n] THEN timers[n][a] ELSE <<>>
 SetTimer(n, a, tm) == timers' = [timers EXCEPT ![n] = [b \in (DOMAIN timers[n] \cup {a}) |-> IF b = a THEN tm ELSE timers[n][b]]]
 
-NewPending(q) == [ready |-> FALSE, idx |-> 0, tries |-> 0, hs1 |-> 0, queued |-> q, due |-> 0, blocked |-> {}]
+NewPending(q) == [ready |-> FALSE, idx |-> 0, tries |-> 0, hs1 |-> 0, queue |-> q, due |-> 0, blocked |-> {}]
 
 \* inside packet for a: send on the primary tunnel, or queue behind the pending handshake, or start one
-TunSend(n, a) ==
+TunSend(n, a, ok) ==
     /\ sends < MaxTunSends /\ sends' = sends + 1
     /\ a \notin Own[n]
     /\ tunout' = 0 /\ UNCHANGED early
-    /\ IF a \in DOMAIN hosts[n]
+    /\ IF a \in DOMAIN hosts[n] /\ ~ok
+         THEN NoEmit /\ UNCHANGED <<msgs, pend, tuns, hosts, clock, timers>>      \* outbound firewall drops it
+       ELSE IF a \in DOMAIN hosts[n]
          THEN LET t == tuns[n][Primary(n, a)] IN
               /\ msgs' = Append(msgs, Data(n, t.ridx, t.key, t.tx + 1))
               /\ tuns' = [tuns EXCEPT ![n][t.lidx].tx = t.tx + 1]
               /\ Emit(<<[id |-> Len(msgs) + 1, to |-> t.remote]>>)
               /\ UNCHANGED <<pend, hosts, clock, timers>>
          ELSE IF a \in DOMAIN pend[n]
-           THEN /\ pend' = [pend EXCEPT ![n][a].queued = IF @ < MaxQueue THEN @ + 1 ELSE @]
+           THEN /\ pend' = [pend EXCEPT ![n][a].queue = IF Len(@) < MaxQueue THEN Append(@, ok) ELSE @]
                 /\ NoEmit /\ UNCHANGED <<msgs, tuns, hosts, clock, timers>>
            ELSE \* StartHandshake; the host is static so the first attempt is made at once
                 \E i \in Idx \ (MainIdx(n) \cup PendIdx(n)) :
-                   /\ LET p == NewPending(1) IN
+                   /\ LET p == NewPending(<<ok>>) IN
                       /\ msgs' = Append(msgs, Hs1(n, i, clock))
                       /\ pend' = [pend EXCEPT ![n] = @ @@ (a :> [p EXCEPT !.ready = TRUE, !.idx = i, !.tries = 1,
                                                                           !.hs1 = Len(msgs) + 1, !.due = clock + 1])]
@@ -237,7 +240,7 @@ RecvHs2(n, id, via) ==
               ELSE IF a \notin SetOf(m.cert)
                 THEN \* wrong host answered: close towards it, block that underlay address, start over with the queue
                      LET key == <<p.hs1, id>>
-                         np  == [NewPending(p.queued) EXCEPT !.blocked = p.blocked \cup {via}]
+                         np  == [NewPending(p.queue) EXCEPT !.blocked = p.blocked \cup {via}]
                          dsts == SelectSeq(Route[n][a], LAMBDA d : d \notin np.blocked)
                      IN \E i \in Idx \ (MainIdx(n) \cup (PendIdx(n) \ {p.idx})) :
                         /\ tunout' = 0
@@ -254,15 +257,16 @@ RecvHs2(n, id, via) ==
                         /\ UNCHANGED <<tuns, hosts>>
               ELSE \* Complete: the pending entry becomes a tunnel, queued packets are released in order
                    LET key == <<p.hs1, id>>
+                       nAllowed == Len(SelectSeq(p.queue, LAMBDA b : b))      \* released only if the outbound firewall allows it
                        t == [lidx |-> p.idx, ridx |-> m.respIdx, addrs |-> m.cert, peer |-> c, init |-> TRUE,
                              hsTime |-> m.time, hs1 |-> p.hs1, hs2 |-> 0, key |-> key, remote |-> via,
-                             tx |-> 2 + p.queued, rx |-> {}, roamFrom |-> NoNode, roamAt |-> 0]
+                             tx |-> 2 + nAllowed, rx |-> {}, roamFrom |-> NoNode, roamAt |-> 0]
                        r == AddTunnel(n, t)
                    IN /\ pend' = [pend EXCEPT ![n] = without]
                       /\ hosts' = [hosts EXCEPT ![n] = r[1]]
                       /\ tuns'  = [tuns EXCEPT ![n] = r[2]]
-                      /\ msgs' = msgs \o [k \in 1..p.queued |-> Data(n, m.respIdx, key, 2 + k)]
-                      /\ Emit([k \in 1..p.queued |-> [id |-> Len(msgs) + k, to |-> via]])
+                      /\ msgs' = msgs \o [k \in 1..nAllowed |-> Data(n, m.respIdx, key, 2 + k)]
+                      /\ Emit([k \in 1..nAllowed |-> [id |-> Len(msgs) + k, to |-> via]])
                       /\ tunout' = 0 /\ UNCHANGED timers
 
 (* ---- data / test / close received ---- *)
@@ -308,7 +312,7 @@ Deliver == \E n \in Nodes, id \in 1..Len(msgs) : \E via \in Nodes \ {n} :
               RecvHs1(n, id, via) \/ RecvHs2(n, id, via) \/ RecvData(n, id, via)
 
 Next == /\ Len(msgs) < MaxMsgs
-        /\ \/ \E n \in Nodes, a \in Addrs : TunSend(n, a) \/ Retry(n, a, 1)
+        /\ \/ \E n \in Nodes, a \in Addrs : (\E ok \in BOOLEAN : TunSend(n, a, ok)) \/ Retry(n, a, 1)
            \/ Deliver
            \/ Tick
 
@@ -350,7 +354,7 @@ C10_OnePerHs1 == \A n \in Nodes : \A i, j \in DOMAIN tuns[n] :
                     (i # j /\ ~tuns[n][i].init /\ ~tuns[n][j].init) => tuns[n][i].hs1 # tuns[n][j].hs1
 
 (* C32: queue bound *)
-C32_Queue == \A n \in Nodes : \A a \in DOMAIN pend[n] : pend[n][a].queued <= MaxQueue /\ pend[n][a].tries <= Retries
+C32_Queue == \A n \in Nodes : \A a \in DOMAIN pend[n] : Len(pend[n][a].queue) <= MaxQueue /\ pend[n][a].tries <= Retries
 
 (* C32: linear back-off -- no retransmission before the pending handshake's own delay has passed *)
 C32_NoEarlyRetry == ~early
